@@ -30,7 +30,7 @@ def validate(d):
         gen = "-G Ninja" if shutil.which("ninja") else ""
         r = sh("cmake %s -S %s -B %s -DCMAKE_BUILD_TYPE=RelWithDebInfo -DCMAKE_CXX_FLAGS=-Wno-error && cmake --build %s -j16" % (gen, wt, b, b))
         assert r.returncode == 0, (r.stdout + r.stderr)[-2000:]
-        demo = "g++ -std=c++14 -w -I%s/src %s/demo.cpp -L%s/src -lbpp-core -Wl,-rpath,%s/src -o %s/demo" % (wt, d, b, b, b)
+        demo = "g++ -std=c++14 -w -I%s/src %s/demo.cpp -L%s/src -lbpp-core3 -Wl,-rpath,%s/src -o %s/demo" % (wt, d, b, b, b)
         r = sh(demo)
         assert r.returncode == 0, "demo does not compile on the clean tree: " + r.stderr[-1500:]
         r = sh("%s/demo" % b, timeout=300)
